@@ -8,7 +8,7 @@ for t in java g++ clang++-14 python3 jq; do command -v $t >/dev/null || { echo "
 test -f /opt/veriftools/tla/tla2tools.jar
 mkdir -p evidence .cache .work replays
 cd spec
-for m in Trace_Stateless Trace_Life MC_Sup MC_Spl MC_Ops MC_Gen MC_Life MC_Interp MC_Fp MC_Sharing Examples MC_Ex; do
+for m in Apalache_Index ExamplesAlg MC_Ast Trace_Stateless Trace_Life MC_Sup MC_Spl MC_Ops MC_Gen MC_Life MC_Interp MC_Fp MC_Sharing Examples MC_Ex; do
   java -cp /opt/veriftools/tla/tla2tools.jar:/opt/veriftools/tla/CommunityModules-deps.jar tla2sany.SANY $m.tla >/dev/null 2>&1 || { echo "SANY failed on $m"; exit 1; }
 done
 echo "setup ok"
